@@ -5,6 +5,7 @@
 //  asm     : the real SymbolicAssembler (through a stand-in space with arbitrary DOF tables) + real CSR scatter
 //  fe      : real assemblers on real meshes/spaces (all routes, everything the oracle needs)  -> fe.hpp
 //  ops     : every operator / functional class of common_operators.hpp / common_functionals.hpp -> ops.hpp
+//  hk/hkasm: user-defined operators / functionals with working prepare()/finish() hooks on every route -> hooks.cpp
 //  trace3  : TraceAssembler in 3-D on meshes with permuted facet vertex orders; trpt: one facet point -> trace3d.cpp
 //  trace   : TraceAssembler facet selection (add_facet / compile / clear) -> trace_quad.cpp
 //  bg/bgsd : Burgers operator, classic assembler and domain-assembler jobs (blocked and scalar) -> burgers.hpp
@@ -16,7 +17,7 @@
 #include "ops.hpp"
 #include <kernel/lafem/sparse_matrix_banded.hpp>
 
-namespace c16 { void trace_quad(verif::Cur& c, std::ostream& o); void trace3(verif::Cur& c, std::ostream& o, bool point); }
+namespace c16 { void trace_quad(verif::Cur& c, std::ostream& o); void trace3(verif::Cur& c, std::ostream& o, bool point); void hooks(verif::Cur& c, std::ostream& o, bool only_route); }
 using namespace FEAT;
 using namespace c16;
 using verif::Cur;
@@ -297,6 +298,8 @@ static void handle(const verif::Tokens& t, std::ostream& o)
   }
   else if(op == "trace")
     trace_quad(c, o);
+  else if(op == "hk" || op == "hkasm")
+    hooks(c, o, op == "hkasm");
   else if(op == "trace3" || op == "trpt")
     trace3(c, o, op == "trpt");
   else if(op == "ops")
